@@ -52,14 +52,17 @@ def publication_order(ctx, prog, rule):
     ctx.ob(rule, "nothing-after-header/%s" % short(f.path), not others and bool(hw),
            "device operations after Header::write other than the final flush: %s" % [short(c) for _, c in others],
            where=f.file_line(others[0][0]) if others else None)
-    # the flush result is what finalize returns
+    # the flush result decides success: it is returned (possibly converted), or it is propagated with `?` and every
+    # Ok path passes through it (checked by on-every-ok-path/final-flush above)
     fwd = [(bi, p) for bi, si, cls, p in f.ret_assignments() if cls == "fwd"]
     okf = False
     for bi, p in fwd:
-        t = strip(Resolver(f).operand({"k": "copy", "place": {"local": 0, "proj": []}})) if False else None
         tr = Resolver(f)._call(p, bi, 0, frozenset())
         st = strip(tr)
         okf = okf or (st[0] == "call" and st[1] == PFLUSH)
+    ff = S.steps.get("final-flush", [])
+    if not okf and ff:
+        okf = all(branch_of_call(f, b) is not None for b in ff) and f.ok_reachable(removed=ff) is None
     ctx.ob(rule, "success-is-flush-result/%s" % short(f.path), okf, "the value returned on the success path is the (converted) result of the final flush")
     # physical_size must-calls flush before touching the device cursor
     g = prog.fn(PSIZE)
@@ -164,6 +167,24 @@ def who_may_seek(ctx, prog, rule):
     callers = sorted(prog.callers_of(HW))
     ok = set(callers) <= {NEW, FIN} and len(callers) == 2
     ctx.ob(rule, "who-may-call/Header::write", ok, "callers of Header::write: %s" % [short(c) for c in callers], nontrivial=False)
+    # the publishing function is reachable only from the explicit top-level finalize calls: never from a Drop impl,
+    # a constructor or a per-point-cloud / per-image writer (dropping a writer must not publish the header)
+    rev = {}
+    for p, outs in prog.callgraph().items():
+        for o in outs:
+            rev.setdefault(o, set()).add(p)
+    up, st = set(), [FIN]
+    while st:
+        x = st.pop()
+        for c in rev.get(x, ()):
+            if c not in up:
+                up.add(c)
+                st.append(c)
+    allowed_up = {FIN, FIN.rsplit("::", 1)[0] + "::finalize"}
+    extra = sorted(up - allowed_up)
+    ctx.ob(rule, "who-may-publish/finalize_customized_xml", not extra,
+           "functions that can reach finalize_customized_xml: %s (only the public finalize entry points may; %s)" % (sorted(short(x) for x in up), ("UNEXPECTED: " + ", ".join(extra)) if extra else "ok"),
+           where=("%s:%d" % (prog.fns[extra[0]].span["file"], prog.fns[extra[0]].span["l0"])) if extra else None)
     n = 0
     for p in sorted(prog.callers_of(PSEEK)):
         f = prog.fn(p)
@@ -184,7 +205,7 @@ def who_may_seek(ctx, prog, rule):
             else:
                 ok, why = False, "target has unknown provenance"
             ctx.ob(rule, "seek-target/%s/%s" % (short(p), desc if len(desc) < 50 else "expr"), ok, "%s: %s" % (desc, why), where=f.file_line(bi))
-    ctx.floor(rule, "physical_seek call sites", n, 5)
+    ctx.floor(rule, "physical_seek call sites", n, 3, semantic=False)
 
 
 def _field_from_position(prog, f, fld):
